@@ -10,7 +10,9 @@ inline int boneLimitFor(const NiVersion& v) { return (v.IsOB() || v.IsFO3()) ? 1
 
 // requireCover: every shape triangle must lie in exactly one partition (false: at most one)
 // exactVertexMap: the vertex map must equal the set of used vertices (after a rebuild); false: it only has to contain them (after vertex deletion)
-inline std::vector<std::string> checkPartitions(NifFile& nif, NiShape* s, bool requireCover, long* trianglesChecked = nullptr, bool exactVertexMap = true) {
+// bindingVsSkinData: after a rebuild, the bones and weights a partition stores for a vertex (resolved through the partition's bone list)
+//   must be the normalised four largest NiSkinData influences of that vertex
+inline std::vector<std::string> checkPartitions(NifFile& nif, NiShape* s, bool requireCover, long* trianglesChecked = nullptr, bool exactVertexMap = true, bool bindingVsSkinData = false) {
 	std::vector<std::string> err;
 	auto& hdr = nif.GetHeader();
 	auto si = hdr.GetBlock<NiSkinInstance>(s->SkinInstanceRef());
@@ -70,6 +72,43 @@ inline std::vector<std::string> checkPartitions(NifFile& nif, NiShape* s, bool r
 				auto a = normTri(p.triangles[k]), b = normTri(p.trueTriangles[k]);
 				if (a.p1 != b.p1 || a.p2 != b.p2 || a.p3 != b.p3) { err.push_back(fmt("unmapped-triangle-mismatch(p%zu)", pi)); break; }
 			}
+	}
+	if (bindingVsSkinData && sd->hasVertWeights) {
+		std::map<uint16_t, std::vector<std::pair<float, int>>> inf;   // vertex -> (weight, bone)
+		for (size_t b = 0; b < sd->bones.size(); b++)
+			for (auto& w : sd->bones[b].vertexWeights) inf[w.index].push_back({w.weight, (int)b});
+		bool reported = false;
+		for (size_t pi = 0; pi < sp->partitions.size() && !reported; pi++) {
+			auto& p = sp->partitions[pi];
+			if (!p.hasVertexWeights || !p.hasBoneIndices || p.vertexWeights.size() != p.vertexMap.size() || p.boneIndices.size() != p.vertexMap.size()) continue;
+			for (size_t i = 0; i < p.vertexMap.size() && !reported; i++) {
+				auto l = inf[p.vertexMap[i]];
+				std::sort(l.rbegin(), l.rend());
+				if (l.size() > 4 && std::fabs(l[3].first - l[4].first) < 1e-4f) continue;   // tie at the cut: not defined which one survives
+				bool tie = false;
+				for (size_t a = 0; a + 1 < l.size() && a < 4; a++) if (l[a].first == l[a + 1].first) tie = true;
+				if (l.size() > 4) l.resize(4);
+				float sum = 0;
+				for (auto& x : l) sum += x.first;
+				std::map<int, float> want2, got2;
+				for (auto& x : l) if (sum > 0) want2[x.second] += x.first / sum;
+				const float* pw = &p.vertexWeights[i].w1;
+				const uint8_t* pb = &p.boneIndices[i].i1;
+				for (int k = 0; k < 4; k++)
+					if (pw[k] > 0 && pb[k] < p.bones.size()) got2[p.bones[pb[k]]] += pw[k];
+				(void)tie;
+				bool bad = false;
+				for (auto& kv : want2) if (kv.second > 2e-3f && std::fabs((got2.count(kv.first) ? got2[kv.first] : 0.0f) - kv.second) > 2e-3f) bad = true;
+				for (auto& kv : got2) if (kv.second > 2e-3f && !want2.count(kv.first)) bad = true;
+				if (bad) {
+					std::string ws, gs;
+					for (auto& kv : want2) ws += fmt("%d=%.3f ", kv.first, kv.second);
+					for (auto& kv : got2) gs += fmt("%d=%.3f ", kv.first, kv.second);
+					err.push_back(fmt("partition-binding-vs-skin-data(p%zu vertex %u: skin data {%s} partition {%s})", pi, p.vertexMap[i], ws.c_str(), gs.c_str()));
+					reported = true;
+				}
+			}
+		}
 	}
 	if (trianglesChecked) *trianglesChecked += (long)want.size();
 	if (requireCover) { if (want != got) err.push_back(fmt("triangle-cover(shape has %zu, partitions hold %zu)", want.size(), got.size())); }
